@@ -1226,6 +1226,20 @@ fn headers_custom_not_found_after_found() {
 }
 }
 custom_harness! {
+/// an error cell under Headers::Custom is reported at its own ABSOLUTE position: the row after the header row, the selected column
+fn headers_custom_error_pos() {
+    let s = std::mem::ManuallyDrop::new(hsheet("a", "b", Data::Int(kani::any()), Data::Error(crate::CellErrorType::Div0)));
+    let req = ["b"];
+    match RangeDeserializerBuilder::with_headers(&req).from_range::<Data, Row3<Got>>(&s.range) {
+        Ok(mut it) => match it.next() {
+            Some(Err(DeError::CellError { err: crate::CellErrorType::Div0, pos })) => assert!(pos.0 == s.start.0 + 1 && pos.1 == s.start.1 + 1),
+            _ => assert!(false),
+        },
+        Err(_) => assert!(false),
+    }
+}
+}
+custom_harness! {
 /// the header row is not an item: one data row gives exactly one item (Headers::Custom)
 fn headers_custom_one_item_per_data_row() {
     let s = std::mem::ManuallyDrop::new(hsheet("a", "b", Data::Int(kani::any()), Data::Int(kani::any())));
